@@ -80,6 +80,20 @@ def build_state(cfg):
         )
     st = new_state(cfg["type"], cfg["nv"], cfg.get("nh"), cfg.get("na"), unitary_dict=udict)
     randomise(st, cfg["pseed"], cfg.get("scale", 1.0))
+    if cfg.get("wells"):
+        # a metastable two-well model (all spins down / all spins up, equal depth up to the small random part):
+        # the regime where a long chain's law depends on every sweep being an independent kernel application
+        nv_, nh_ = cfg["nv"], cfg.get("nh") or cfg["nv"]
+        J = float(cfg["wells"]) / np.sqrt(nv_ * nh_)
+        randomise(st, cfg["pseed"], 0.05)
+        rbm = st.rbm_am
+        for name, p in rbm.named_parameters():
+            if name in ("weights", "weights_W"):
+                p.data += J
+            elif name == "visible_bias":
+                p.data += -J * nh_ / 2
+            elif name == "hidden_bias":
+                p.data += -J * nv_ / 2
     if cfg.get("param_layout") == "colmajor" and cfg["type"] != "density":
         # the user assigned weight matrices built by a transpose: same values, column-major memory
         # (PurificationRBM.gamma_grad uses .view on its weights and does not support this; not generated)
